@@ -281,6 +281,7 @@ static void mode_random(args const &a)
 	bool pressure = a.has("pressure");
 	size_t shm = (size_t)a.num("shm", 1 << 20);
 	int nkeys = (int)a.num("keys", limit ? (int)limit * 2 + 2 : 40);
+	if (a.has("late")) { vclock::now() = 2200000000L; O().count("histories_after_2038"); }     // deadlines that do not fit 31 bits
 	int ntrig = (int)a.num("triggers", 6);
 	runner *rn = make_runner(shared, limit, shm);
 	rn->pressure = pressure;
